@@ -176,6 +176,12 @@ bool fs_frozen(int pid);
 int fs_mutations(int pid);                // mutating calls seen since last reset for pid
 void fs_reset_counters(int pid);
 
+// --- ThreadSanitizer (tsan variant only; no effect otherwise)
+// While a Quiet scope is alive on the calling fiber its memory traffic is not analysed: used for harness code that
+// runs on a simulated process's fibers (output capture, scripted clients) so that only the repository's own accesses
+// take part in race detection. Suspended across fiber switches.
+struct Quiet { Quiet(); ~Quiet(); Quiet(const Quiet&) = delete; Quiet& operator=(const Quiet&) = delete; };
+
 // --- misc
 std::string scratch_dir();                // per-worker real directory for files (cleaned per run)
 void set_scratch_root(const std::string& dir);
